@@ -18,6 +18,7 @@ From PydoctorVerif Require Import Base.Sexp Model.FieldTypes Gen.TablesC09 Model
      Model.EpyInline Model.ExtractFields Model.RstFields Model.EpyStruct Spec.Conserve Spec.Routing Spec.EpyMarkup Spec.Extract Spec.RstSplit
      Proofs.SegmentsProofs Proofs.FieldsCount Proofs.FieldsTables Proofs.FieldsProofs Proofs.EpyInlineProofs Proofs.ExtractProofs
      Proofs.RstFieldsProofs Proofs.EpyStructProofs.
+From PydoctorVerif Require Model.FieldsIR Gen.FieldsCode Spec.CodeTie Proofs.FieldsIRProofs Proofs.ResolveIRProofs.
 Import ListNotations.
 
 (* ---- code highlighting ------------------------------------------------------------------------------------- *)
@@ -447,4 +448,84 @@ Proof. vm_compute. split; reflexivity. Qed.
 Theorem C09_epytext_structure_crash_witness :
   EpyStruct.parse [w_tok TkBullet (Some 0) BkUlist; w_tok TkPara None BkUlist; w_tok TkHeading (Some 0) BkUlist;
                    w_tok TkPara (Some 0) BkUlist] = Crash 1.
+Proof. vm_compute. reflexivity. Qed.
+
+(* ---- the tie of Model/Fields.v to the source, as theorems ------------------------------------------------------------
+   Gen/FieldsCode.v holds the bodies of FieldHandler._report_unexpected_argument, _handle_param_name,
+   _handle_param_not_found, every handle_<tag> method, handleUnknownField and resolve_types, translated statement by statement from
+   /repo's CURRENT pydoctor/epydoc2stan.py (harness/gen/gen_c09_code.py, fail-closed, rerun on every check) into the
+   statement language of Model/FieldsIR.v; which method a tag selects is Gen/TablesC09.handler_table (read off the live
+   class).  Interpreting THAT code from the state that corresponds to a model state st (Spec/CodeTie.irstate: the same
+   attributes; the warnings of the model rendered to their text by Spec/Routing.render_report) never gets stuck and
+   ends in the state that corresponds to what the hand-written model computes: same buckets, same rows, same
+   duplicates handling, same warnings word for word -- for every object, signature, field and state. *)
+Import Model.FieldsIR Gen.FieldsCode Spec.CodeTie Proofs.FieldsIRProofs Proofs.ResolveIRProofs.
+Theorem C09_code_unexpected_argument_is_model :
+  forall E i f j st,
+    call1 fields_code E i f MUnexpectedArg [VField j] (irstate st) = Some (VNone, irstate (unexpected_arg i f st)).
+Proof. exact code_unexpected_is_model. Qed.
+
+Theorem C09_code_param_name_is_model :
+  forall E i f j st,
+    call1 fields_code E i f MParamName [VField j] (irstate st) =
+    Some (vname (fst (handle_param_name E i f st)), irstate (snd (handle_param_name E i f st))).
+Proof. exact code_param_name_is_model. Qed.
+
+Theorem C09_code_param_not_found_is_model :
+  forall E i f j n st,
+    call1 fields_code E i f MParamNotFound [VName n; VField j] (irstate st) =
+    Some (VNone, irstate (handle_param_not_found E i n st)).
+Proof. exact code_param_not_found_is_model. Qed.
+
+(* each handle_<tag> method *)
+Theorem C09_code_handler_is_model :
+  forall E i f h st,
+    run_method E i f (code_handler h) st = Some (VNone, irstate (model_handler E i f h st)).
+Proof. exact code_handler_is_model. Qed.
+
+Theorem C09_code_unknown_field_is_model :
+  forall E i f st,
+    run_method E i f code_handleUnknownField st = Some (VNone, irstate (handle_unknown i f st)).
+Proof. exact code_handle_unknown_is_model. Qed.
+
+(* FieldHandler.handle: getattr(self, 'handle_' + field.tag, self.handleUnknownField)(field) *)
+Theorem C09_code_handle_is_model :
+  forall E i f st, handle_ir fields_code E i f (irstate st) = Some (irstate (handle E i f st)).
+Proof. exact code_handle_is_model. Qed.
+
+(* format_docstring's loop over the fields of a docstring, from a fresh FieldHandler: the translated code reaches the
+   state C09_fields_routed_partial and C09_param_order are about *)
+Theorem C09_code_handle_all_is_model :
+  forall E fs,
+    handle_all_ir fields_code E 0 fs {| ms_st := init_state E; ms_msgs := [] |} =
+    Some (irstate (handle_all E 0 fs (init_state E))).
+Proof. exact code_run_is_model. Qed.
+
+(* fh.resolve_types(): the translated body (two loops, try/except KeyError/else, continue, list.remove) puts the parameter
+   table in the order Model/Fields.resolve_types computes -- which C09_param_order* are about *)
+Theorem C09_code_resolve_types_is_model :
+  forall E st, resolve_ir fields_code E (irstate st) = Some (irstate (resolve_types E st)).
+Proof. exact code_resolve_is_model. Qed.
+
+(* format_docstring's use of FieldHandler from start to end: handle every field, then resolve_types for a function *)
+Theorem C09_code_final_state_is_model :
+  forall E fs, final_ir fields_code E fs = Some (irstate (final_state E fs)).
+Proof. exact code_final_is_model. Qed.
+
+(* hence the property itself, stated on the translated code: the sections format() makes of the state the code reaches
+   and the warnings the code built (reps: the records whose rendering those texts are) *)
+Theorem C09_code_fields_routed :
+  forall E fs ms i f,
+    is_function_obj E = true -> no_silent_class E fs -> nth_error fs i = Some f ->
+    final_ir fields_code E fs = Some ms ->
+    exists reps, ms_msgs ms = map rend reps /\ routed i f (format (ms_st ms)) reps.
+Proof. exact code_fields_routed. Qed.
+
+(* the translated code is not vacuous: "@param x: .. / @param x: .." on def f(x) warns in the words of the source *)
+Local Open Scope string_scope.
+Example C09_code_example :
+  option_map (fun ms => map snd (ms_msgs ms))
+    (handle_all_ir fields_code w_env 0 [fld "param" (Some "x"); fld "param" (Some "x")]
+       {| ms_st := init_state w_env; ms_msgs := [] |})
+  = Some [T "Parameter ""x"" was already documented"].
 Proof. vm_compute. reflexivity. Qed.
